@@ -149,7 +149,10 @@ def run_check(prop: str, tier: str) -> int:
     print(f"[{prop}] tier={tier} VERIF_SEED={seed} workers={workers} "
           f"scale={scale}", flush=True)
 
-    core.warmup_in_child(prop.lower())
+    # (the warm-up runs directed scenarios to fill the numba cache; on a tree
+    # where those hang it gives up early - the pool then meets the hang)
+    core.warmup_in_child(prop.lower(), timeout=min(600.0, max(
+        180.0, 2 * float(getattr(engine, "HARD_CAP_S", 180.0)))))
     t_warm = time.monotonic() - t_start
 
     items, batches = build_items(engine, tier, scale)
@@ -383,7 +386,8 @@ def run_check(prop: str, tier: str) -> int:
             def replays(pth, tries):
                 for _ in range(tries):
                     rc_, out_ = core.replay_in_fresh_interpreter(
-                        pth, timeout=2 * cap + 120)
+                        pth, timeout=min(600.0, max(180.0, 2 * cap))
+                        + 2 * cap + 120)
                     if rc_ == 1 and f"clause={sv['clause']}" in out_:
                         return True, rc_, out_
                 return False, rc_, out_
@@ -543,9 +547,11 @@ def replay(path: str) -> int:
         rep = json.load(f)
     prop = rep["property"]
     engine = load_engine(prop)
-    core.warmup_in_child(prop.lower())
-    iso = core.IsolatedExecutor(
-        prop.lower(), hard_cap=float(getattr(engine, "HARD_CAP_S", 180.0)))
+    cap = float(getattr(engine, "HARD_CAP_S", 180.0))
+    # (the warm-up executes directed scenarios: on a tree where those hang it
+    # must not eat the time the replay itself needs)
+    core.warmup_in_child(prop.lower(), timeout=min(600.0, max(180.0, 2 * cap)))
+    iso = core.IsolatedExecutor(prop.lower(), hard_cap=cap)
     try:
         res = iso.execute(rep["scenario"])
     finally:
